@@ -94,13 +94,14 @@ func NewPREF64(prefix netip.Prefix, maxInterval time.Duration) *PREF64 {
 	// Calculate the scaled lifetime using MaxRtrAdvInterval.
 	// See https://datatracker.ietf.org/doc/html/rfc8781#section-4.1-2
 	lifetime := maxPref64Lifetime
-	if int(maxInterval.Seconds())*3 < int(lifetime.Seconds()) {
-		lifetimeSeconds := int(maxInterval.Seconds()) * 3
-		if r := int(lifetimeSeconds) % 8; r > 0 {
-			lifetimeSeconds += 8 - r
+	if scaled := 3 * maxInterval; scaled < lifetime {
+		// Round up to the lifetime field's unit of 8 seconds. The whole
+		// duration is used so that a fractional interval is not truncated
+		// before scaling.
+		lifetime = scaled.Truncate(8 * time.Second)
+		if lifetime < scaled {
+			lifetime += 8 * time.Second
 		}
-
-		lifetime = time.Duration(lifetimeSeconds) * time.Second
 	}
 
 	return &PREF64{
